@@ -8,7 +8,8 @@
                    result = ( class ... ), 0 = mode disabled for this input, otherwise 1 + index of the first
                    variant whose preprocessor-cache key is equal
    leg ppcache:    case = ( step ... )
-       step = ( rec fresh date key ( (name system) ... ) ( file ... ) )
+       step = ( rec fresh date key ( (name system) ... ) ( file ... ) [ ( vanish-name ... ) ] )
+              vanish: files removed AFTER the include recorder ran and BEFORE add_result stats them
             | ( look date ( file ... ) )
        file = ( name kind bytes mtime cnew )     kind 0 regular, 1 directory (with |bytes| entries), 2 absent, 3 fifo;
                                                  cnew 1 = written after the compile start instant (rec steps only)
@@ -17,7 +18,8 @@
        file system).
        result = ( per-config ... )   32 configurations, index = fsm*16 + ctime*8 + itm*4 + ssh*2 + hwd
        per-config = ( step-out ... )
-       step-out = ( r ok|disabled|empty number_of_entries ( (key n_includes) ... ) )
+       step-out = ( r ok|disabled|empty|unstored number_of_entries ( (key n_includes) ... ) )
+                  unstored: a recorded file could not be stat'ed any more when add_result ran
                 | ( l miss 0 )
                 | ( l hit 0 key ( (name changed has_date has_timestamp mtime_changed) ... ) date_changed )
    The executable instance takes H = identity (injective) and an injective list encoding for HT. *)
@@ -124,32 +126,44 @@ Definition input_path : path := bs "input.c".
 
 Record st := { s_fs : fsnap; s_j : N; s_entry : entry Dg; s_truth : truth_t; s_out : list sx }.
 
+Definition rec_step (cfg : config) (s : st) (fresh date k : sx) (incs files vanish : list sx) : st :=
+  let j := s_j s in
+  let fs := apply_files true j (s_fs s) files in
+  (* what is left when add_result runs: somebody removed the `vanish` files after the recorder looked at them *)
+  let fs_add := fold_left (fun f v => fs_remove f (get_B v)) vanish fs in
+  let incl := map (fun i => match i with
+                            | SL [n; sy] => (get_B n, get_bool sy)
+                            | _ => ([], false)
+                            end) incs in
+  let op := {| ro_fresh := get_bool fresh; ro_fs := fs; ro_start := start_of j; ro_date := get_B date;
+               ro_input := input_path; ro_key := get_B k; ro_incs := incl |} in
+  let '(e', st) := apply_rec_w Dg Hx HTx cfg (s_entry s) op fs_add in
+  let '(status, truth') :=
+    match st with
+    | RecDisabled => ("disabled", s_truth s)
+    | RecEmpty => ("empty", s_truth s)
+    | RecOk =>
+        let files' := match remember_all Dg Hx HTx cfg fs (start_of j) (get_B date) input_path [] incl with
+                      | Some inc => sort_files Dg inc | None => [] end in
+        let tr := map (fun dp => let '(b, m) := truth_now fs (snd dp) in
+                                 (snd dp, match b with Some b => b | None => [] end, m)) files' in
+        let base_truth := if get_bool fresh then [] else s_truth s in
+        if existsb (fun dp => match fs_get fs_add (snd dp) with None => true | Some _ => false end) files'
+        then ("unstored", base_truth)
+        else ("ok", (get_B k, (tr, get_B date)) :: base_truth)
+    end in
+  {| s_fs := fs_add; s_j := j + 1; s_entry := e'; s_truth := truth';
+     s_out := s_out s ++ [SL (sym "r" :: sym status :: enc_entry e')] |}.
+
 Definition step_cfg (cfg : config) (s : st) (x : sx) : st :=
   let j := s_j s in
   match x with
   | SL [t; fresh; date; k; SL incs; SL files] =>
-      if is_sym "rec" t then
-        let fs := apply_files true j (s_fs s) files in
-        let incl := map (fun i => match i with
-                                  | SL [n; sy] => (get_B n, get_bool sy)
-                                  | _ => ([], false)
-                                  end) incs in
-        let op := {| ro_fresh := get_bool fresh; ro_fs := fs; ro_start := start_of j; ro_date := get_B date;
-                     ro_input := input_path; ro_key := get_B k; ro_incs := incl |} in
-        let '(e', st) := apply_rec Dg Hx HTx cfg (s_entry s) op in
-        let '(status, truth') :=
-          match st with
-          | RecDisabled => ("disabled", s_truth s)
-          | RecEmpty => ("empty", s_truth s)
-          | RecOk =>
-              let files' := match remember_all Dg Hx HTx cfg fs (start_of j) (get_B date) input_path [] incl with
-                            | Some inc => sort_files Dg inc | None => [] end in
-              let tr := map (fun dp => let '(b, m) := truth_now fs (snd dp) in
-                                       (snd dp, match b with Some b => b | None => [] end, m)) files' in
-              ("ok", (get_B k, (tr, get_B date)) :: (if get_bool fresh then [] else s_truth s))
-          end in
-        {| s_fs := fs; s_j := j + 1; s_entry := e'; s_truth := truth';
-           s_out := s_out s ++ [SL (sym "r" :: sym status :: enc_entry e')] |}
+      if is_sym "rec" t then rec_step cfg s fresh date k incs files []
+      else {| s_fs := s_fs s; s_j := j + 1; s_entry := s_entry s; s_truth := s_truth s;
+              s_out := s_out s ++ [err "bad step"] |}
+  | SL [t; fresh; date; k; SL incs; SL files; SL vanish] =>
+      if is_sym "rec" t then rec_step cfg s fresh date k incs files vanish
       else {| s_fs := s_fs s; s_j := j + 1; s_entry := s_entry s; s_truth := s_truth s;
               s_out := s_out s ++ [err "bad step"] |}
   | SL [t; date; SL files] =>
